@@ -123,6 +123,23 @@ class MapGen:
             if i == 63:
                 locs.append({"_left_x1": 0, "_top_y1": 0, "_right_x2": 4096, "_bottom_y2": 4096,
                              "_string_id": self.sid("Anywhere"), "_elevation_flags": 0})
+            elif self.opts.get("degenerate_locs") and i in (4, 9, 14, 19, 24, 29):
+                # the neighbourhood of "is this slot unused": records that are all zero but for ONE field, and a zero-area
+                # point location (left = right, top = bottom) without name and flags
+                l = dict.fromkeys([f for f, _ in S.LOC[2]], 0)
+                if i == 4:
+                    l.update(_left_x1=320, _top_y1=480, _right_x2=320, _bottom_y2=480)
+                elif i == 9:
+                    l.update(_left_x1=7)
+                elif i == 14:
+                    l.update(_bottom_y2=9)
+                elif i == 19:
+                    l.update(_elevation_flags=1)
+                elif i == 24:
+                    l.update(_string_id=self.sid(self.rand_text()))
+                else:
+                    l.update(_left_x1=64, _top_y1=64, _right_x2=64, _bottom_y2=64, _elevation_flags=0)
+                locs.append(l)
             elif rng.random() < self.opts.get("loc_density", 0.08 if nloc == 255 else 0.25):
                 x1, y1 = rng.randrange(0, 4000), rng.randrange(0, 4000)
                 locs.append({"_left_x1": x1, "_top_y1": y1, "_right_x2": x1 + rng.randrange(0, 500),
@@ -179,6 +196,7 @@ class MapGen:
         swnm = [self.sid(self.rand_text()) if rng.random() < dens else 0 for _ in range(256)]
         if self.opts.get("swnm_empty_ref"):
             swnm[3] = self.sid("")
+        self.low_unnamed = [k for k in range(256) if swnm[k] == 0][:3]
         if self.opts.get("header_ptr"):
             # make sure the empty text is referenced (a location name); it gets the last id holding it
             anywhere = self.texts.index("Anywhere") + 1 if "Anywhere" in self.texts else -1
@@ -347,6 +365,9 @@ class MapGen:
         if codec == "cuwp":
             return rng.choice(self.cuwp_ids) if self.cuwp_ids else None
         if codec == "switch":
+            low = getattr(self, "low_unnamed", None)
+            if low and rng.random() < 0.4:
+                return rng.choice(low)       # the lowest unnamed switch numbers: what a naive allocator hands out next
             return rng.randrange(256)
         if codec == "aiscript":
             return struct.unpack("I", rng.choice([b"JYDg", b"EnBk", b"+Vi0", b"Ab1_", b"zz99"]))[0]
